@@ -1630,6 +1630,10 @@ func init() {
 			for _, t := range c16SpecialCases() {
 				kC16Special.Do(c, t)
 			}
+			// 12. files whose reported size says nothing about their content
+			for _, m := range []string{"Rs", "Rs-between", "Rs-stdin", "nRs-input", "R", "R-between", "rawfile", "Rs-length"} {
+				kC16Proc.Do(c, c16ProcCase{Mode: m})
+			}
 			// 9. more files than descriptors
 			for _, t := range c16ManyCases(c.Quick()) {
 				kC16Many.Do(c, t)
